@@ -201,7 +201,39 @@ def correspondence(ctx):
                              "python": "from univers.version_range import VersionRange as R; print(str(R.from_string(%r)))" % t},
                              spec="identical canonical text")
                 break
+    _scheme_spellings(ctx)
     _hash_seeds(ctx)
+
+
+def _scheme_spellings(ctx):
+    """every scheme NAME the parser accepts in lower case (the registered names, and whatever table of aliases the module
+    may hold: the keys of its module-level str -> str dicts) is accepted in any letter case, with the same result"""
+    from univers import version_range as VR
+    names = set(VR.RANGE_CLASS_BY_SCHEMES)
+    for _n, obj in vars(VR).items():
+        if isinstance(obj, dict) and obj and all(isinstance(k, str) and isinstance(v, str) for k, v in obj.items()):
+            names.update(k for k in obj if k.isascii() and k.replace("-", "").replace("_", "").isalnum())
+            names.update(v for v in obj.values() if v.isascii() and v.replace("-", "").replace("_", "").isalnum())
+    for name in sorted(names):
+        for body in ("1.0.0", ">=1.0.0|<2.0.0"):
+            low = "vers:%s/%s" % (name.lower(), body)
+            try:
+                want = VersionRange.from_string(low)
+            except Exception:  # noqa: BLE001 — not a name the parser knows, or not a version of that scheme
+                continue
+            ctx.count("scheme-spellings", key=low, nontrivial=True)
+            for variant in ("vers:%s/%s" % (name.upper(), body), "VERS:%s/%s" % (name.capitalize(), body),
+                            "Vers:%s/%s" % (name.swapcase(), body)):
+                try:
+                    got = VersionRange.from_string(variant)
+                    why = None if (got == want and str(got) == str(want)) else "%r parses to %s, %r to %s" % (variant, got, low, want)
+                except Exception as e:  # noqa: BLE001
+                    why = "%r raises %s: %s, %r parses" % (variant, type(e).__name__, e, low)
+                if why:
+                    ctx.disagree("scheme-spellings", low, why, str(want), True,
+                                 {"scheme_name": name, "variant": variant, "canonical": low, "clause": why}, spec="identical canonical text")
+                    break
+            break
 
 
 def _hash_seeds(ctx):
